@@ -279,6 +279,13 @@ def crafted_for(base):
             ln = bytes(a ^ b for a, b in zip(struct.pack(">H", v), bytes(x ^ 0x8A for x in rev[4:6])))
             out.append((f"guard{i}: first guard setting length={v:#x}", {"kind": "overwrite", "at": gc + 4, "data": hx(ln),
                                                                         "stage": "plain"}))
+        # the checksum setting (last guard setting) with a length field of 0..3: its value is read as a 32-bit number
+        off = 0
+        for o_, t_, _v in g["guard"]:
+            off += 6 + (2 if t_ == "short" else 4)
+        for v in (0, 1, 2, 3, 5):
+            ln = bytes(a ^ b for a, b in zip(struct.pack(">H", v), bytes(x ^ 0x8A for x in rev[off + 4:off + 6])))
+            out.append((f"guard{i}: checksum setting length={v}", {"kind": "overwrite", "at": gc + off + 4, "data": hx(ln), "stage": "plain"}))
         out.append((f"guard{i}: truncated inside guard config", {"kind": "truncate", "at": gc + 9, "stage": "plain"}))
         out.append((f"guard{i}: truncated inside masked config", {"kind": "truncate", "at": cfg + 3000, "stage": "plain"}))
     for i, a in enumerate(base.get("artifacts", [])):
